@@ -89,7 +89,7 @@ class PredatorPreyResourcesSim(SmartGridWorldSimulation):
                 attack_status, attacked_agents = \
                     self.attack_actor.process_action(agent, action, **kwargs)
                 if attack_status: # Attack was attempted
-                    if not attacked_agents: # Attack failed
+                    if len(attacked_agents) == 0: # Attack failed
                         self.rewards[agent_id] -= 0.1
                     else:
                         for attacked_agent in attacked_agents:
